@@ -32,6 +32,9 @@ structure Sys (σ : Type) where
   cover : σ → String → List Int → List String
   /-- merge consecutive comparisons with the same element before comparing traces -/
   mergeTrace : Bool := true
+  /-- cross-check between two models of the same operation (functional vs literal): a description of the
+      disagreement, if any -/
+  selfCheck : σ → String → List Int → Option String := fun _ _ _ => none
 
 structure Run (σ : Type) where
   table : Std.HashMap Nat (String × Except String σ) := {}
@@ -133,6 +136,9 @@ def handleLine {σ : Type} (sys : Sys σ) (r : Run σ) (lineNo : Nat) (line : St
           let mut r := r
           for c in sys.cover pre op args do
             r := { r with cover := bump r.cover c }
+          match sys.selfCheck pre op args with
+          | some msg => r ← report r lineNo "imp" s!"`{op} {args}` on {sys.show_ pre}: {msg}" op
+          | none => pure ()
           if res' != "?" && res'.trimAscii.toString != res.trimAscii.toString then
             r ← report r lineNo "result" s!"`{op} {args}` on {sys.show_ pre}: implementation {res}, model {res'}" op
           -- trace
@@ -221,6 +227,39 @@ def treeCover (c : TreeCfg) (s : TreeS) (op : String) (args : List Int) : List S
       ["rem:ok"] ++ (if t'.ht = m.root.ht then ["rem:height-same"] else ["rem:height-shrinks"])
   | _, _ => []
 
+/-- Functional model vs literal register-level transcription on one operation. -/
+def treeSelfCheck (c : TreeCfg) (s : TreeS) (op : String) (args : List Int) : Option String :=
+  let d : Rec Int Nat := ⟨0, 0, 0, 0, 0, 0⟩
+  let m := s.openMut c
+  let img := Imp.openMut c (s.image c 0 0)
+  let cmp := fun (fimg : TreeImage Int Nat) (fres : String) (iimg : TreeImage Int Nat) (ires : String) =>
+    if fimg == iimg && fres == ires then none
+    else some s!"literal model gives {ires} / functional {fres}; images {if fimg == iimg then "equal" else "differ"}"
+  match op, args with
+  | "ins", [k, v] =>
+    match m.insert c k v.toNat with
+    | .ok (s', r) =>
+      let (i', ir) := Imp.insert c d img k v.toNat
+      cmp (s'.image c 0 0) (optStr toString r) i' (optStr toString ir)
+    | .error _ => none
+  | "rem", [k] =>
+    match m.remove k with
+    | .ok (s', r) =>
+      let (i', ir) := Imp.remove d img k
+      cmp (s'.image c 0 0) (optStr toString r) i' (optStr toString ir)
+    | .error _ => none
+  | "upd", [k, v] =>
+    let (s', r) := m.update k v.toNat
+    let (i', ir) := Imp.update d img k v.toNat
+    cmp (s'.image c 0 0) (toString r) i' (toString ir)
+  | "low", [] =>
+    if optStr toString m.lowest == optStr toString (Imp.lowest d img) then none else some "lowest differs"
+  | "get", [k] =>
+    let fi := (m.root.find k).map (·.1)
+    let ii := Imp.find d img k (img.recs.length + 1) img.hdr.root
+    if fi == ii then none else some s!"find differs: {fi} vs {ii}"
+  | _, _ => none
+
 def treeSys (c : TreeCfg) (f : TreeFmt) : Sys TreeS where
   decode := fun bs =>
     match f.ofBytes bs with
@@ -247,6 +286,7 @@ def treeSys (c : TreeCfg) (f : TreeFmt) : Sys TreeS where
   eq := fun a b => a == b
   show_ := showTree
   cover := treeCover c
+  selfCheck := fun s op args => if s.slots ≤ 64 then treeSelfCheck c s op args else none
 
 /-! ### Hash set -/
 
